@@ -9,10 +9,14 @@ Directive syntax inside a template (`verus/units/<unit>.rs.in`):
   //@loop <ordinal> [iter=<ident>]
   //@| <invariant / decreases text placed between the loop head and its '{'>
   //@      (iter=<ident>: `for PAT in EXPR` becomes `for PAT in <ident>: EXPR`, Verus's syntax for naming the ghost iterator)
+  //@      (enum=<ident>: `for (I, PAT) in EXPR.iter().enumerate() {` becomes
+  //@       `let <ident> = EXPR; for I in 0..<ident>.len() { let PAT = &<ident>[I];` -- the one rewriting, see below)
   //@before "<statement prefix>" [nth=<k>]
   //@| <proof text placed before that statement>
   //@in_loop <ordinal>
   //@| <proof text placed at the start of that loop's body>
+  //@in_loop_end <ordinal>
+  //@| <proof text placed at the end of that loop's body (before its closing brace)>
   //@after_text "<exact text>" [nth=<k>]
   //@| <spec text placed right after that text (closure contracts: `-> (r: T) requires .. ensures ..`)>
   //@closure "<|params| text>" [nth=<k>]
@@ -30,6 +34,9 @@ What extraction changes (exhaustive; also recorded per function in the report):
   * spec text (`//@|` lines) is inserted at the three kinds of places above;
   * //@closure gives a closure argument its contract and wraps its body in braces (`{ BODY }`), nothing of BODY changes;
   * with iter=<ident> a `for` loop's ghost iterator is named (`in <ident>: EXPR`), nothing of PAT or EXPR changes;
+  * with enum=<ident> the HEAD of a `for (I, PAT) in EXPR.iter().enumerate()` loop is rewritten into the index
+    loop it abbreviates (Verus has no specification of core::iter::Enumerate and refuses one); I, PAT, EXPR and the
+    loop body are unchanged, the rewriting is recorded per function (`desugared_loops`);
   * attributes and doc comments in front of the fn are not copied;
   * statements named by //@drop are removed (logging macros only);
   * with external_body the body is replaced by `{ unimplemented!() }` and the fn
@@ -175,6 +182,9 @@ class Expander:
         # parse sub-blocks
         sig_spec, loops, befores, drops, after_texts, in_loops = [], {}, [], [], [], []
         loop_iters = {}
+        in_loop_ends = []
+        loop_enums = {}
+        desugared = []
         closures = []
         cur = sig_spec
         for b in block[k:]:
@@ -185,11 +195,16 @@ class Expander:
                 for w in b.split()[2:]:
                     if w.startswith("iter="):
                         loop_iters[int(b.split()[1])] = w[5:]
+                    if w.startswith("enum="):
+                        loop_enums[int(b.split()[1])] = w[5:]
             elif b.startswith("//@before "):
                 t = shlex.split(b[len("//@before "):])
                 _p, _kv = _parse_kv(t)
                 cur = []
                 befores.append((_p[0], int(_kv.get("nth", "0")), cur))
+            elif b.startswith("//@in_loop_end "):
+                cur = []
+                in_loop_ends.append((int(b.split()[1]), cur))
             elif b.startswith("//@in_loop "):
                 cur = []
                 in_loops.append((int(b.split()[1]), cur))
@@ -256,6 +271,24 @@ class Expander:
                 if not mo:
                     raise ExtractError("%s::%s: loop %d: no `in`" % (rel, name, ordinal))
                 ins.append((kw + mo.end(), loop_iters[ordinal] + ": "))
+            if ordinal in loop_enums:
+                # `for (IDX, PAT) in EXPR.iter().enumerate() {`  ->
+                # `let <id> = EXPR; for IDX in 0..<id>.len() <contract> { let PAT = &<id>[IDX];`
+                # The ONE rewriting the extractor performs (Verus has no specification of core::iter::Enumerate and
+                # refuses one for a provided trait method). It rests on the std contract "slice::Iter yields &s[0],
+                # &s[1], .. in order and Enumerate pairs the k-th item with k" (assumption ledger 3c); IDX, PAT, EXPR
+                # and the whole loop body are copied unchanged.
+                head = S.text[kw:brace]
+                mh = re.match(r"for\s*\(\s*(\w+)\s*,\s*(.+?)\s*\)\s+in\s+(.+?)\s*\.iter\(\)\s*\.enumerate\(\)\s*$", head, re.S)
+                if not mh or not S.mask.startswith("for", kw):
+                    raise ExtractError("%s::%s: loop %d is not `for (i, x) in E.iter().enumerate()` (enum= given)" % (rel, name, ordinal))
+                idv, pat, expr = mh.group(1), mh.group(2), mh.group(3)
+                gid = loop_enums[ordinal]
+                ins.append((kw, "let %s = %s;\n        for %s in 0..%s.len() " % (gid, expr, idv, gid)))
+                dels.append((kw, brace, "desugared"))
+                ins.append((brace + 1, "\n            let %s = &%s[%s];" % (pat, gid, idv)))
+                desugared.append({"loop": ordinal, "original": norm(head),
+                                  "becomes": "let %s = %s; for %s in 0..%s.len() { let %s = &%s[%s]; .. }" % (gid, norm(expr), idv, gid, pat, gid, idv)})
         for (prefix, k2, txt) in befores:
             try:
                 a, _b = S.find_stmt(bo, end, prefix, k2)
@@ -267,6 +300,11 @@ class Expander:
             if ordinal >= len(lp):
                 raise ExtractError("%s::%s: no loop %d" % (rel, name, ordinal))
             ins.append((lp[ordinal][1] + 1, "\n" + "\n".join(txt) + "\n"))
+        for (ordinal, txt) in in_loop_ends:
+            lp = S.loops(bo, end)
+            if ordinal >= len(lp):
+                raise ExtractError("%s::%s: no loop %d" % (rel, name, ordinal))
+            ins.append((match_brace(S.mask, lp[ordinal][1]), "\n" + "\n".join(txt) + "\n"))
         for (needle, k2, txt) in after_texts:
             # exact text occurrence inside the body (used to give a closure its contract:
             # the text is inserted right after the closure's parameter list)
@@ -302,12 +340,12 @@ class Expander:
                 a, b2 = S.find_stmt(bo, end, prefix, k2)
             except ScanError as e:
                 raise ExtractError("%s::%s: %s" % (rel, name, e))
-            dels.append((a, b2))
+            dels.append((a, b2, "dropped"))
         # compose
         pieces, origs = [], []
         cursor = bo
-        events = sorted([(p, 0, t) for (p, t) in ins] + [(a, 1, b2) for (a, b2) in dels], key=lambda x: (x[0], x[1]))
-        for (p, kind, payload) in events:
+        events = sorted([(p, 0, t, "") for (p, t) in ins] + [(a, 1, b2, why) for (a, b2, why) in dels], key=lambda x: (x[0], x[1]))
+        for (p, kind, payload, why) in events:
             if p < cursor:
                 raise ExtractError("%s::%s: overlapping anchors" % (rel, name))
             pieces.append(S.text[cursor:p])
@@ -317,21 +355,22 @@ class Expander:
                 cursor = p
             else:
                 origs.append(S.text[p:payload])  # dropped text still part of the source span
-                pieces.append("/* dropped: %s */" % norm(S.text[p:payload])[:60].replace("*/", ""))
+                pieces.append("/* %s: %s */" % (why, norm(S.text[p:payload])[:80].replace("*/", "")))
                 cursor = payload
         pieces.append(S.text[cursor:end])
         origs.append(S.text[cursor:end])
         assert "".join(origs) == S.text[bo:end], "verbatim re-check failed"
         text = sig + "\n" + "\n".join("    " + x for x in sig_spec) + "\n" + "".join(pieces) + "\n"
-        self._rec(S, rel, kv.get("rename", name), impl, start, end, n_loops, dropped=[norm(S.text[a:b2]) for (a, b2) in dels])
+        self._rec(S, rel, kv.get("rename", name), impl, start, end, n_loops, dropped=[norm(S.text[a:b2]) for (a, b2, why) in dels if why == "dropped"], desugared=desugared)
         return text
 
-    def _rec(self, S, rel, name, impl, start, end, n_loops, external=False, dropped=()):
+    def _rec(self, S, rel, name, impl, start, end, n_loops, external=False, dropped=(), desugared=()):
         self.report.append({
             "kind": "fn", "name": name, "impl": impl, "file": rel,
             "lines": [S.text.count("\n", 0, start) + 1, S.text.count("\n", 0, end) + 1],
             "sha256": hashlib.sha256(S.text[start:end].encode()).hexdigest(),
             "loops": n_loops, "external_body": external, "dropped": list(dropped),
+            "desugared_loops": list(desugared),
         })
 
 
